@@ -448,7 +448,7 @@ fn evaluate(m: &Model) -> Result<Eval, Failure> {
             if lc.get_width() != lu.get_width() || lc.get_height() != lu.get_height() {
                 fails.push(Failure {
                     sev: 1,
-                    key: format!("load.size_mismatch|{mode}"),
+                    key: "load.size_mismatch".into(),
                     msg: format!(
                         "from_bytes(compressed) is {}x{}, from_bytes(uncompressed) is {}x{} (saved buffer {w}x{h})",
                         lc.get_width(),
@@ -461,38 +461,25 @@ fn evaluate(m: &Model) -> Result<Eval, Failure> {
             } else {
                 let lw = lu.get_width().max(0) as usize;
                 let lh = lu.get_height().max(0) as usize;
-                for y in 0..lh {
+                // first difference in reading order that is not explained by a wrong cell in the stream itself (those are
+                // reported by the ref clause); the reader is sequential, so the first difference is where it went wrong
+                'cmp: for y in 0..lh {
                     for x in 0..lw {
                         let a = cell_fields(&lc, x as i32, y as i32);
                         let b = cell_fields(&lu, x as i32, y as i32);
-                        if a == b {
+                        if a == b || (x < w && y < h && bad[y * w + x]) {
                             continue;
                         }
-                        // explained by a wrong cell in the stream itself (reported by the ref clause)?
-                        if x < w && y < h && bad[y * w + x] {
-                            continue;
-                        }
-                        let field = if a.0 != b.0 {
-                            "char"
-                        } else if a.1 != b.1 {
-                            "fg"
-                        } else if a.2 != b.2 {
-                            "bg"
-                        } else if a.3 != b.3 {
-                            "flags"
-                        } else {
-                            "font_page"
-                        };
                         let by = if x < w && y < h { RUN_NAMES[dec.by[y * w + x] as usize] } else { "outside" };
                         fails.push(Failure {
                             sev: 1,
-                            key: format!("load.cell_mismatch.{field}|run={by}|{mode}"),
+                            key: format!("load.cell_mismatch|run={by}"),
                             msg: format!(
-                                "row {y} column {x}: from_bytes(compressed) has (ch,fg,bg,flags,page) = {a:?}, from_bytes(uncompressed) has {b:?}, although the compressed stream decodes to the right cell by the specification"
+                                "row {y} column {x}: from_bytes(compressed) has (ch,fg,bg,flags,page) = {a:?}, from_bytes(uncompressed) has {b:?}, although the compressed stream decodes to the right cell by the specification (cell lies in a '{by}' run, {mode} mode)"
                             ),
                             row: if y < h { Some(y) } else { None },
                         });
-                        break; // one per row
+                        break 'cmp;
                     }
                 }
             }
@@ -504,7 +491,7 @@ fn evaluate(m: &Model) -> Result<Eval, Failure> {
                 _ => "uncompressed_only",
             };
             let e = a.err().or(b.err()).map(|e| e.to_string()).unwrap_or_default();
-            fails.push(Failure { sev: 1, key: format!("load_err|{which}|{mode}"), msg: format!("from_bytes failed ({which}): {e}"), row: None });
+            fails.push(Failure { sev: 1, key: format!("load_err|{which}"), msg: format!("from_bytes failed ({which}): {e}"), row: None });
         }
     }
 
@@ -704,7 +691,8 @@ fn check_block(b: &RowBlock) -> Verdict {
 
 /// A stretch of `len` cells. kind 0: all equal (ch,at,pg); 1: same character, attribute steps through the attribute
 /// alphabet; 2: same attribute, character steps through the character alphabet; 3: both step; 4: all equal but the
-/// font page alternates from cell to cell (only with two pages).
+/// font page alternates from cell to cell (only with two pages); 5: every cell an independent pseudo-random draw from the
+/// alphabets (with the full byte range: no runs at all).
 #[derive(Clone, Debug, Hash, Serialize, Deserialize)]
 struct Piece {
     kind: u8,
@@ -760,12 +748,15 @@ fn expand_row(p: &Pic, pieces: &[Piece]) -> Vec<Cell> {
             if out.len() >= w {
                 break;
             }
-            let (cs, as_, ps) = match pc.kind % 5 {
+            // kind 5: every cell an independent pseudo-random draw (a fixed function of the piece and the position)
+            let noise = (pc.ch as u32 * 0x0101 + pc.at as u32 * 0x1_0001 + i as u32 + 1).wrapping_mul(0x9E37_79B1).rotate_left(7).wrapping_mul(0x85EB_CA6B);
+            let (cs, as_, ps) = match pc.kind % 6 {
                 0 => (0, 0, 0),
                 1 => (0, i, 0),
                 2 => (i, 0, 0),
                 3 => (i, i, 0),
-                _ => (0, 0, i),
+                4 => (0, 0, i),
+                _ => ((noise >> 24) as usize, ((noise >> 14) & 0xFF) as usize, ((noise >> 5) & 1) as usize),
             };
             out.push(Cell { ch: sym(&p.chars, pc.ch, cs), at: sym(&p.attrs, pc.at, as_), pg: ((pc.pg as usize + ps) % np) as u8 });
         }
@@ -812,15 +803,15 @@ fn pic_strategy(tol: bool) -> BoxedStrategy<Pic> {
         2 => 6u8..=40,
         2 => proptest::sample::select(vec![62u8, 63, 64, 65, 66, 126, 127, 128, 129, 130]),
     ];
-    let piece = (0u8..=4, len, any::<u8>(), any::<u8>(), 0u8..=1).prop_map(|(kind, len, ch, at, pg)| Piece { kind, len, ch, at, pg });
+    let piece = (0u8..=5, len, any::<u8>(), any::<u8>(), 0u8..=1).prop_map(|(kind, len, ch, at, pg)| Piece { kind, len, ch, at, pg });
     let rows = prop_oneof![
         3 => proptest::collection::vec(proptest::collection::vec(piece.clone(), 0..=12), 1..=3),
         1 => proptest::collection::vec(proptest::collection::vec(piece, 0..=10), 1..=30),
     ];
     let chb = prop_oneof![3 => proptest::sample::select(vec![0x20u8, 0x41, 0x42, 0xDB, 0x00, 0xFF]), 1 => any::<u8>()];
     let atb = prop_oneof![3 => proptest::sample::select(vec![0x07u8, 0x0F, 0x17, 0x70, 0x87, 0xF8, 0x08]), 1 => any::<u8>()];
-    let chars = prop_oneof![3 => proptest::collection::vec(chb, 1..=3), 1 => Just(Vec::new())];
-    let attrs = prop_oneof![3 => proptest::collection::vec(atb, 1..=3), 1 => Just(Vec::new())];
+    let chars = prop_oneof![2 => proptest::collection::vec(chb, 1..=3), 1 => Just(Vec::new())];
+    let attrs = prop_oneof![2 => proptest::collection::vec(atb, 1..=3), 1 => Just(Vec::new())];
     let pages = proptest::sample::select(vec![(0u8, 1u8), (0, 1), (0, 2), (1, 0), (1, 3), (2, 1)]);
     (w, any::<bool>(), prop_oneof![3 => Just(false), 1 => Just(true)], 1u8..=2, pages, chars, attrs, 0u8..=2, rows)
         .prop_map(move |(w, ice, sauce, npages, pages, chars, attrs, fill, rows)| Pic { w, ice, sauce, npages, pages, chars, attrs, fill, rows, tol })
@@ -879,19 +870,11 @@ fn check_pic(p: &Pic) -> Verdict {
                 (false, false) => "small",
                 _ => "mixed",
             };
-            let wb = match p.w {
-                0..=12 => "w<=12",
-                13..=62 => "w13..62",
-                63..=65 => "w63..65",
-                66..=126 => "w66..126",
-                127..=129 => "w127..129",
-                _ => "w>=130",
-            };
             let nt = st.row_nt.iter().any(|x| *x);
             Verdict::pass(
                 nt,
                 format!(
-                    "{alpha}/{}/{wb}{}{}",
+                    "{alpha}/{}{}{}",
                     if st.mode512 { "512" } else { "single" },
                     if st.max_run == 64 { "/run64" } else { "" },
                     if tolerated > 0 { "+known_font_page_rows" } else { "" }
@@ -950,7 +933,7 @@ fn main() {
         "rows_3x3x2: every row of width 1..={max_w18} (quick 1..=6, thorough 1..=7) over 3 chars {{' ','A','B'}} x 3 attrs {{07,0F,17}} x 2 font pages, row index -> cells by mixed radix \
          (digit = ch + 3*at + 9*pg, column 0 least significant); rows_2x2: every row of width 1..=10 over 2 chars x 2 attrs (radix 4). One case = a block of up to 512 \
          consecutive row indices of one width saved as one buffer (compression is per row); a failing row is re-checked alone in a 1-row buffer. \
-         pictures: generated buffers width 1..=200 (forced 63,64,65,127,128,129) x height 1..=30, rows built from pieces (equal cells, same-char, same-attr, both-changing, page-alternating stretches, \
+         pictures: generated buffers width 1..=200 (forced 63,64,65,127,128,129) x height 1..=30, rows built from pieces (equal cells, same-char, same-attr, both-changing, page-alternating and random stretches, \
          lengths 1..=130 incl. 62..66 and 126..130) over small alphabets (1..=3 chars/attrs) or the full byte range, 1 or 2 font pages in varying font slots, blink or ice mode, with/without SAUCE. \
          Non-trivial: a case containing a row with a run of >= 3 equal cells or at least two runs of different type in its compressed form. Distinct by case hash (a block counts once; the row totals are printed as '[C06] rows:'). \
          Row-level handling of the known font-page finding: {}.",
@@ -973,7 +956,7 @@ fn main() {
 
     eng.enumerated(PartCfg::new("rows_3x3x2", 0, 0).exhaustive(true), total18, move |i| make_block(18, &table18, i, tol), check_block);
     eng.enumerated(PartCfg::new("rows_2x2", 0, 0).exhaustive(true), total4, move |i| make_block(4, &table4, i, false), check_block);
-    eng.generated_min(PartCfg::new("pictures", 500_000, 8_000_000), move || pic_strategy(tol), check_pic, |_| "-".to_string(), minimize_pic);
+    eng.generated_min(PartCfg::new("pictures", 500_000, 6_000_000), move || pic_strategy(tol), check_pic, |_| "-".to_string(), minimize_pic);
 
     unsafe {
         libc::atexit(row_report);
